@@ -202,13 +202,17 @@ class Multiplication:
       return
     et_links = self.segment(segment_name).dovetails_of_end(end_type)
     diff = max([len(et_links)-factor, 0])
-    links_signatures = list([repr(l.other_end(gfapy.SegmentEnd(segment_name, \
-                          end_type))) for l in et_links])
+    def signature(l, sn):
+      # the other end of the link; for a link of the segment with itself
+      # this is an end of the same copy, whatever its name
+      oe = l.other_end(gfapy.SegmentEnd(sn, end_type))
+      return (segment_name if oe.name == sn else oe.name, oe.end_type)
+    links_signatures = list([signature(l, segment_name) for l in et_links])
     for i, sn in enumerate([segment_name]+copy_names):
       to_keep = links_signatures[i:i+diff+1]
       links = self.segment(sn).dovetails_of_end(end_type).copy()
       for l in links:
-        l_sig = repr(l.other_end(gfapy.SegmentEnd(sn, end_type)))
+        l_sig = signature(l, sn)
         if l_sig not in to_keep and l.is_connected():
           # (a link of the end with itself is listed twice)
           l.disconnect()
